@@ -494,6 +494,7 @@ class Endpoint:
         self._closed = False       # closed by my own code
         self._os_closed = False    # closed because my process died
         self._sent_after_peer_close = 0
+        self._rst = False          # a TCP reset is pending for my next read at end of data
         if proc is not None:
             proc.endpoints.append(self)
 
@@ -502,7 +503,16 @@ class Endpoint:
         return self._os_closed or self._closed or (self.proc is not None and self.proc.dead)
 
     def _os_close(self) -> None:
+        self._reset_peer_if_unread()
         self._os_closed = True
+
+    def _reset_peer_if_unread(self) -> None:
+        """A socket that goes away while data for it is still unread answers
+        with RST instead of FIN: the peer's next read at the end of its data
+        fails with ECONNRESET instead of returning EOF (real TCP; modelled
+        only when the scenario asks for it, sched.resets)."""
+        if getattr(self.sched, 'resets', False) and not self._gone() and self.inq is not None and self.inq.q and self.peer is not None:
+            self.peer._rst = True
 
     def _gone(self) -> bool:
         return self._closed or self._os_closed
@@ -528,6 +538,7 @@ class Endpoint:
         return 1000 + self.id
 
     def close(self) -> None:
+        self._reset_peer_if_unread()
         self._closed = True
 
     def send(self, obj: Any) -> None:
@@ -541,6 +552,8 @@ class Endpoint:
         desc = s.describe_payload(obj)
         if self.peer._gone():
             self._sent_after_peer_close += 1
+            if getattr(s, 'resets', False):
+                self._rst = True  # the dead peer's kernel answers data with RST
             s.msglog.append({'ev': 'send_to_closed', 'step': s.steps, 'src': self.owner_name(), 'dst': self.peer.owner_name(), 'msg': desc})
             if self._sent_after_peer_close > 1:
                 raise BrokenPipeError(32, 'Broken pipe')
@@ -562,6 +575,10 @@ class Endpoint:
             s.last_progress = s.steps
             s.msglog.append({'ev': 'recv', 'step': s.steps, 'src': self.peer.owner_name(), 'dst': self.owner_name(), 'msg': desc, 'seq': seq})
             return pickle.loads(data)
+        if self._rst:
+            self._rst = False
+            s.msglog.append({'ev': 'recv_reset', 'step': s.steps, 'src': self.peer.owner_name(), 'dst': self.owner_name()})
+            raise ConnectionResetError(104, 'Connection reset by peer')
         raise EOFError()
 
     def poll(self, timeout: float | None = 0.0) -> bool:
